@@ -18,34 +18,30 @@ def A(s) -> Atom:
 
 
 def parse(line: str):
+    """iterative parser"""
     pos = 0
     n = len(line)
-
-    def skip():
-        nonlocal pos
+    stack: list[list] = []
+    result = None
+    done = False
+    while True:
         while pos < n and line[pos] in ' \t\r\n':
             pos += 1
-
-    def item():
-        nonlocal pos
-        skip()
         if pos >= n:
-            raise ValueError('unexpected end')
+            break
+        if done:
+            raise ValueError('trailing tokens')
         c = line[pos]
         if c == '(':
             pos += 1
-            out = []
-            while True:
-                skip()
-                if pos >= n:
-                    raise ValueError('missing )')
-                if line[pos] == ')':
-                    pos += 1
-                    return out
-                out.append(item())
+            stack.append([])
+            continue
         if c == ')':
-            raise ValueError('unexpected )')
-        if c == '"':
+            pos += 1
+            if not stack:
+                raise ValueError('unexpected )')
+            item = stack.pop()
+        elif c == '"':
             pos += 1
             buf = []
             while True:
@@ -54,7 +50,7 @@ def parse(line: str):
                 ch = line[pos]
                 if ch == '"':
                     pos += 1
-                    return ''.join(buf)
+                    break
                 if ch == '\\':
                     nx = line[pos + 1]
                     buf.append({'n': '\n', 't': '\t'}.get(nx, nx))
@@ -62,16 +58,22 @@ def parse(line: str):
                 else:
                     buf.append(ch)
                     pos += 1
-        start = pos
-        while pos < n and line[pos] not in ' \t\r\n()"':
-            pos += 1
-        return Atom(line[start:pos])
-
-    x = item()
-    skip()
-    if pos != n:
-        raise ValueError('trailing tokens')
-    return x
+            item = ''.join(buf)
+        else:
+            start = pos
+            while pos < n and line[pos] not in ' \t\r\n()"':
+                pos += 1
+            item = Atom(line[start:pos])
+        if stack:
+            stack[-1].append(item)
+        else:
+            result = item
+            done = True
+    if stack:
+        raise ValueError('missing )')
+    if not done:
+        raise ValueError('unexpected end')
+    return result
 
 
 def escape(s: str) -> str:
@@ -79,14 +81,33 @@ def escape(s: str) -> str:
 
 
 def render(x) -> str:
-    if isinstance(x, Atom):
-        return str(x)
-    if isinstance(x, str):
-        return '"' + escape(x) + '"'
-    if isinstance(x, bool):
-        return '1' if x else '0'
-    if isinstance(x, int):
-        return str(x)
-    if isinstance(x, (list, tuple)):
-        return '(' + ' '.join(render(i) for i in x) + ')'
-    raise TypeError(f'cannot render {x!r}')
+    """iterative (deep chains exceed CPython's C recursion limit otherwise)"""
+    out = []
+    stack = [x]
+    CLOSE = object()
+    SPACE = object()
+    while stack:
+        x = stack.pop()
+        if x is CLOSE:
+            out.append(')')
+        elif x is SPACE:
+            out.append(' ')
+        elif isinstance(x, Atom):
+            out.append(str(x))
+        elif isinstance(x, str):
+            out.append('"' + escape(x) + '"')
+        elif isinstance(x, bool):
+            out.append('1' if x else '0')
+        elif isinstance(x, int):
+            out.append(str(x))
+        elif isinstance(x, (list, tuple)):
+            out.append('(')
+            stack.append(CLOSE)
+            n = len(x)
+            for j in range(n - 1, -1, -1):
+                stack.append(x[j])
+                if j:
+                    stack.append(SPACE)
+        else:
+            raise TypeError(f'cannot render {x!r}')
+    return ''.join(out)
